@@ -449,7 +449,7 @@ void mon_busy_answer(cat_status s)
 
 void mon_ro_check(void)
 {
-        if (!(W.mon & P_C08)) return;
+        if (!(W.mon & P_C08) || !I.n_ro) return;
         for (int c = 0; c < W.ncmd; c++)
                 for (int v = 0; v < W.cmd[c].nvar; v++) {
                         if (W.cmd[c].var[v].access != CAT_VAR_ACCESS_READ_ONLY) continue;
